@@ -27,6 +27,10 @@ def setup():
     @doing.doify('FbAct')
     def fbact(self, tag="", **kw):
         HOOKS["acts"][tag](self.store)
+
+    @doing.doify('FbRef')
+    def fbref(self, **kw):
+        """a deed whose only purpose is to own ioinit shares (`do fb ref via … per …`)"""
     _ready = True
 
 
@@ -57,14 +61,38 @@ def build(text, period, name="case.flo"):
     path = scratch_path(name)
     with open(path, "w") as f:
         f.write(text)
+    from ioflo.base import excepting
     sk = skedding.Skedder(name="verif", period=period, real=False, filepath=path)
+    HOOKS["build_error"] = None
     with time_limit(20):
-        ok = sk.build()
+        try:
+            ok = sk.build()
+            if not ok:
+                HOOKS["build_error"] = "resolve"        # ResolveError is caught inside Builder.build
+        except excepting.ParseError:
+            ok = False                                 # ParseError is re-raised by Builder.build
+            HOOKS["build_error"] = "parse"
+        except Exception as ex:                        # anything else escaping Builder.build
+            ok = False
+            HOOKS["build_error"] = type(ex).__name__
     return sk if ok else None
 
 
-def run(sk, obs=None, acts=None):
-    HOOKS["obs"] = obs or (lambda store: None)
+def run(sk, obs=None, acts=None, nticks=None):
+    """run the skedder; after `nticks` calls of the observer deed every tasker is asked to stop
+    (what `bid stop all` does: tasker.desire = STOP), independent of any framer clock"""
+    from ioflo.base.globaling import STOP
+    count = [0]
+
+    def hook(store):
+        if obs:
+            obs(store)
+        count[0] += 1
+        if nticks is not None and count[0] >= nticks:
+            for house in sk.houses:
+                for tasker in house.taskables:
+                    tasker.desire = STOP
+    HOOKS["obs"] = hook
     HOOKS["acts"] = acts or {}
     with time_limit(60):
         sk.run()
